@@ -89,6 +89,9 @@ def gen_case(rng, tier="quick"):
             case["epsrel"] = 1e-4
             case["dkmax"] = _pick(rng, [2, 3])
     case["torn_per_write"] = _pick(rng, [1, 2, 4])
+    # the writer may have been another release of the library: the reader
+    # then warns about the version, which is not the warning C17 asks for
+    case["other_version"] = rng.random() < 0.15
     return case
 
 
@@ -98,7 +101,8 @@ def shrink(case):
         if key in case and case[key] > lo:
             c = dict(case); c[key] = max(lo, case[key] // 2); out.append(c)
             c = dict(case); c[key] = case[key] - 1; out.append(c)
-    for key in ("transforms", "preexisting", "overwrite", "caps"):
+    for key in ("transforms", "preexisting", "overwrite", "caps",
+                "other_version"):
         if case.get(key):
             c = dict(case); c[key] = False; out.append(c)
     return out
@@ -323,6 +327,9 @@ def run_workload(case, disk):
         disk.mark("after_set")
         return r
     ptm._set_data_and_shape = marking_set
+    real_version = ptm.__version__
+    if case.get("other_version"):
+        ptm.__version__ = "0.0.1.other-release"
     try:
         if case["kind"] == "fdirect":
             rngs = np.random.default_rng(7)
@@ -393,6 +400,7 @@ def run_workload(case, disk):
             fpt.close()
     finally:
         ptm._set_data_and_shape = orig_set
+        ptm.__version__ = real_version
     disk.sync_closed()
     return name, ref, ref_pt
 
